@@ -34,10 +34,13 @@ TEMPLATES = {
     "len_cancel": ["div", ["mul", "L", "T:time"], "T:date"],
     "vel_cancel": ["div", ["div", ["mul", "L", "T:time"], "T:date"], "T"],
     "area_cancel": ["mul", ["div", "L:length", "L:depth"], ["mul", "L", "L"]],
+    # two categories of one quantity type with opposite exponents of DIFFERENT size
+    "len_cats_div": ["div", ["mul", "L:length", "L:length"], "L:depth"],
+    "inv_len_cats": ["div", "L:length", ["mul", "L:depth", "L:depth"]],
 }
 # groups of templates with equal dimensions (operands of a + / - may come from different members)
-EQUAL_DIMS = [["lt", "tl"], ["vel", "vel_b"], ["area", "pow_area", "area_cats"], ["vol", "vol_r", "pow_vol"], ["len", "len_mix", "len_cancel"], ["lm_t", "lm_t_b"], ["vel", "vel_cancel"], ["area", "area_cancel"]]
-QUICK = ["len", "time", "area", "vel", "freq", "area_cats", "len_mix", "mom", "pow_area", "vol", "lt", "tl", "vel_b", "len_cancel", "vel_cancel", "area_cancel"]
+EQUAL_DIMS = [["lt", "tl"], ["vel", "vel_b"], ["area", "pow_area", "area_cats"], ["vol", "vol_r", "pow_vol"], ["len", "len_mix", "len_cancel", "len_cats_div"], ["lm_t", "lm_t_b"], ["vel", "vel_cancel"], ["area", "area_cancel"]]
+QUICK = ["len", "time", "area", "vel", "freq", "area_cats", "len_mix", "mom", "pow_area", "vol", "lt", "tl", "vel_b", "len_cancel", "vel_cancel", "area_cancel", "len_cats_div", "inv_len_cats"]
 THOROUGH = list(TEMPLATES)
 
 
